@@ -107,11 +107,21 @@ def elementwise(ctx, kind, direction):
             env = arms.fn_level_env(c, {"body": ra["arm"]["body"]})
             root = list(ra["roots"].items())[0]
             N = e1.Norm(c, env)
+            from ..hir import resolve as _resolve, let_table as _let_table
+            _lt = _let_table(ra["arm"]["body"])
+            for key_ in ("shape", "data"):
+                if strip(fs[key_]).get("k") == "local":
+                    fs[key_] = _resolve(fs[key_], _lt)
             got = [str(N.norm(z)) for z in strip(fs["shape"])["args"]] if strip(fs["shape"]).get("k") == "call" else []
+            # the vector stored as the data is the element-by-element image of the input (established above): same length
+            dloc = strip(strip(fs["data"])["args"][0]) if strip(fs["data"]).get("k") == "call" and strip(fs["data"]).get("args") else None
+            if dloc is not None and dloc.get("k") == "local" and depth == 1:
+                got = [g_.replace("len(%s)" % dloc["name"], "len(%s)" % "\0") for g_ in got]
             dn = pretty({"k": "local", "name": "D"})
             base = [k_ for k_, nm in ra["roots"].items()][0]
             bname = [x["name"] for x in walk(ra["arm"]["body"]) if x.get("k") == "local" and x["hid"] == base][:1]
             b = bname[0] if bname else "data"
+            got = [g_.replace("\0", b) for g_ in got]
             want = ["len(%s)" % b, "len(%s[0])" % b, "len(%s[0][0])" % b][:depth]
             ok_shape = got == want and strip(fs["shape"])["callee"] == "tensor::Shape::" + rank and strip(fs["data"])["callee"] == "tensor::Data::" + rank
             ctx.check("R07.3", inst + ":shape", ok_shape, "output-shape-not-input-dims:" + ",".join(got), where, "shape = %s(%s)" % (rank, ", ".join(got)))
